@@ -24,7 +24,6 @@ import (
 	"math"
 	"reflect"
 	"strings"
-	"sync"
 	"time"
 
 	"github.com/GoogleCloudPlatform/grpc-gcp-go/grpcgcp/grpc_gcp"
@@ -48,7 +47,6 @@ func newGCPPicker(readySCRefs []*subConnRef, gb *gcpBalancer) balancer.Picker {
 
 type gcpPicker struct {
 	gb     *gcpBalancer
-	mu     sync.Mutex
 	scRefs []*subConnRef
 	log    grpclog.LoggerV2
 }
@@ -179,8 +177,11 @@ func (p *gcpPicker) getAndIncrementSubConnRef(ctx context.Context, boundKey stri
 		return scRef, nil
 	}
 
-	p.mu.Lock()
-	defer p.mu.Unlock()
+	// The stream counters are shared by all pickers of the balancer, and a pick on
+	// an outdated picker runs concurrently with picks on the current one: choosing the
+	// least busy subconn and counting the new stream on it is serialized balancer-wide.
+	p.gb.pickMu.Lock()
+	defer p.gb.pickMu.Unlock()
 	scRef, err := p.getSubConnRef(boundKey)
 	if err != nil {
 		return nil, err
@@ -193,7 +194,7 @@ func (p *gcpPicker) getAndIncrementSubConnRef(ctx context.Context, boundKey stri
 
 // getSubConnRef returns the subConnRef object that contains the subconn
 // ready to be used by picker.
-// Must be called holding the picker mutex lock.
+// Must be called holding the balancer's pickMu.
 func (p *gcpPicker) getSubConnRef(boundKey string) (*subConnRef, error) {
 	if boundKey != "" {
 		if ref, ok := p.gb.getReadySubConnRef(boundKey); ok {
@@ -218,7 +219,7 @@ func (p *gcpPicker) leastBusyReady() *subConnRef {
 	return minScRef
 }
 
-// Must be called holding the picker mutex lock.
+// Must be called holding the balancer's pickMu.
 func (p *gcpPicker) getLeastBusySubConnRef() (*subConnRef, error) {
 	minScRef := p.scRefs[0]
 	minStreamsCnt := minScRef.getStreamsCnt()
